@@ -13,6 +13,13 @@ import (
 	"worldcoin/gnark-mbu/poseidon_tree"
 )
 
+type heldValue struct {
+	step int
+	what string
+	v    big.Int // shares its words with what the tree returned
+	was  string
+}
+
 func main() {
 	seed := flag.Int64("seed", 1, "seed")
 	n := flag.Int("n", 50, "histories")
@@ -32,6 +39,7 @@ func main() {
 		tree := poseidon_tree.NewTree(d)
 		size := uint64(1) << uint(d)
 		var ops, outs []string
+		var held []heldValue
 		var used []uint64
 		current := map[uint64]*big.Int{}
 		allProofs := d <= 8 || ln <= 6
@@ -69,6 +77,12 @@ func main() {
 			stat[fmt.Sprintf("kind%d", kind)]++
 			proof := tree.Update(int(idx), *v)
 			root := tree.Root()
+			// what the tree hands out belongs to the caller: keep the very values (not copies) and
+			// look at them again after the later updates
+			held = append(held, heldValue{step: i, what: "root", v: root, was: root.String()})
+			for j := range proof {
+				held = append(held, heldValue{step: i, what: fmt.Sprintf("proof[%d]", j), v: proof[j], was: proof[j].String()})
+			}
 			ops = append(ops, fmt.Sprintf("%d:%s", idx, v))
 			o := root.String()
 			if allProofs || i == ln-1 {
@@ -79,6 +93,12 @@ func main() {
 				o += "[" + strings.Join(ps, ",") + "]"
 			}
 			outs = append(outs, o)
+		}
+		for _, h := range held {
+			if now := h.v.String(); now != h.was {
+				outs = append(outs, fmt.Sprintf("CHANGED-LATER: the %s returned at step %d was %s and reads %s after the later updates", h.what, h.step, h.was, now))
+				break
+			}
 		}
 		mode := "last"
 		if allProofs {
